@@ -317,14 +317,17 @@ fn case_update_step<C: Ctx2, const MAX: usize>() {
 /// `fix` = Some((pending bytes, input length)): the same step with a CONCRETE shape (contents, chaining value and counter stay
 /// symbolic); cheap enough for the quick tier with 128-byte blocks, where the symbolic-shape step is thorough-only.
 fn case_update_step_fix<C: Ctx2, const MAX: usize>(fix: Option<(usize, usize)>) {
-    let mut a = arb();
-    let mut data = Bytes::<MAX>::any();
-    if let Some((bl, ln)) = fix {
-        a.buflen = bl;
-        data.len = ln;
-    }
+    let a = arb();
+    let data = Bytes::<MAX>::any();
     let j: usize = any(); // "for every byte position": one symbolic position (see hash_fixedbuf.rs)
     assume(j < BB);
+    step_body::<C, MAX>(a, data, j, fix);
+}
+fn step_body<C: Ctx2, const MAX: usize>(a0: Arb, d0: Bytes<MAX>, j: usize, fix: Option<(usize, usize)>) {
+    let (a, data) = match fix {
+        Some((bl, ln)) => (Arb { h: a0.h, t: a0.t, buf: a0.buf, buflen: bl, outlen: a0.outlen }, Bytes::<MAX> { buf: d0.buf, len: ln }),
+        None => (a0, d0),
+    };
     let len = data.len;
     let (buf, buflen) = (a.buf, a.buflen);
     let f = fix.is_some();
@@ -567,14 +570,19 @@ pub(crate) fn c01_blake2b_new_keyed_bits() {
 /// quick tier: the update step at concrete shapes around every boundary (exact block multiples, one byte either side, full pending
 /// block, two blocks); the symbolic-shape step is c01_t_blake2b_update_step_*
 fn update_shapes<C: Ctx2>() {
-    case_update_step_fix::<C, 258>(Some((0, 128)));
-    case_update_step_fix::<C, 258>(Some((0, 129)));
-    case_update_step_fix::<C, 258>(Some((1, 127)));
-    case_update_step_fix::<C, 258>(Some((128, 1)));
-    case_update_step_fix::<C, 258>(Some((128, 128)));
-    case_update_step_fix::<C, 258>(Some((5, 251)));
-    case_update_step_fix::<C, 258>(Some((0, 256)));
-    case_update_step_fix::<C, 258>(Some((0, 257)));
+    // all harness inputs are drawn first (the recorder stub draws its return values under Kani: the native replay stream must not interleave)
+    let a = arb();
+    let d = Bytes::<258>::any();
+    let j: usize = any();
+    assume(j < BB);
+    step_body::<C, 258>(Arb { h: a.h, t: a.t, buf: a.buf, buflen: a.buflen, outlen: a.outlen }, Bytes { buf: d.buf, len: d.len }, j, Some((0, 128)));
+    step_body::<C, 258>(Arb { h: a.h, t: a.t, buf: a.buf, buflen: a.buflen, outlen: a.outlen }, Bytes { buf: d.buf, len: d.len }, j, Some((0, 129)));
+    step_body::<C, 258>(Arb { h: a.h, t: a.t, buf: a.buf, buflen: a.buflen, outlen: a.outlen }, Bytes { buf: d.buf, len: d.len }, j, Some((1, 127)));
+    step_body::<C, 258>(Arb { h: a.h, t: a.t, buf: a.buf, buflen: a.buflen, outlen: a.outlen }, Bytes { buf: d.buf, len: d.len }, j, Some((128, 1)));
+    step_body::<C, 258>(Arb { h: a.h, t: a.t, buf: a.buf, buflen: a.buflen, outlen: a.outlen }, Bytes { buf: d.buf, len: d.len }, j, Some((128, 128)));
+    step_body::<C, 258>(Arb { h: a.h, t: a.t, buf: a.buf, buflen: a.buflen, outlen: a.outlen }, Bytes { buf: d.buf, len: d.len }, j, Some((5, 251)));
+    step_body::<C, 258>(Arb { h: a.h, t: a.t, buf: a.buf, buflen: a.buflen, outlen: a.outlen }, Bytes { buf: d.buf, len: d.len }, j, Some((0, 256)));
+    step_body::<C, 258>(Arb { h: a.h, t: a.t, buf: a.buf, buflen: a.buflen, outlen: a.outlen }, Bytes { buf: d.buf, len: d.len }, j, Some((0, 257)));
 }
 #[cfg_attr(kani, kani::proof)]
 #[cfg_attr(kani, kani::unwind(130))]
